@@ -213,6 +213,7 @@ func (wt writeTxn) Create(v interface{}) error {
 	if err != nil {
 		return err
 	}
+	verifPoint("create.committed", wt.id)
 
 	wt.st.callOnChange(wt.id, nil, v)
 	return nil
@@ -258,6 +259,7 @@ func (wt writeTxn) Update(v interface{}) error {
 		}
 		return err
 	}
+	verifPoint("update.committed", wt.id)
 
 	wt.st.callOnChange(wt.id, before, v)
 	return nil
@@ -300,6 +302,7 @@ func (wt writeTxn) Delete() error {
 		}
 		return err
 	}
+	verifPoint("delete.committed", wt.id)
 
 	wt.st.callOnChange(wt.id, before, nil)
 	return nil
@@ -320,6 +323,7 @@ func (st *Store) OnChange(cb func(id string, before, after interface{})) {
 // (where <prefix> is the set prefix), to mark the store as initialized.
 func (st *Store) Init(cb func(add func(id string, v interface{})) error) error {
 	created := make(map[string]interface{})
+	defer verifPoint("init.returned", nil)
 	return st.DB.Update(func(txn *badger.Txn) error {
 		var err error
 		initKey := []byte(`$` + st.prefix + `init`)
@@ -382,10 +386,12 @@ func (st *Store) Init(cb func(add func(id string, v interface{})) error) error {
 			created[id] = v
 		}
 
+		verifPoint("init.seeded", len(created))
 		// Call OnChange callback
 		for id, v := range created {
 			st.callOnChange(id, nil, v)
 		}
+		verifPoint("init.notified", len(created))
 
 		// Set init flag key
 		return txn.Set(initKey, nil)
